@@ -131,7 +131,8 @@ def run(chk, repo: Repo):
     chk.rule("C02-R5", "pCN proposal is sqrt(1-s**2)*x + s*xi with xi from the prior and a likelihood-only ratio; MALA proposal drift/variance agree with log_proposal", floor=4)
     chk.rule("C02-R6", "no unanalysed function in the sampler packages contains a Metropolis acceptance expression min(0, .)", floor=1)
     chk.rule("C02-R7", "every write of a cached evaluation (current_*_logd / current_*_grad) is the evaluation at the current point or is paired "
-                       "with the adoption of the point it was evaluated at (the ratio's denominator belongs to the current state), and is filled by the evaluation it memoises", floor=14)
+                       "with the adoption of the point it was evaluated at (the ratio's denominator belongs to the current state), and is filled by the evaluation it memoises; a function outside the kernels that stores "
+                       "current_point recomputes the caches or restores them together; legacy chain drivers fill the initial cached value with the function single_update compares", floor=14)
     from ..cachepoint import cache_point_rule
     cache_point_rule(chk, repo, "C02-R7", repo.classes_in("cuqi/experimental/mcmc/"))
     _r7_legacy_initial_cache(chk, repo)
